@@ -36,6 +36,12 @@ var gsvdFams = []gsvdFam{
 	// below the threshold of the big matrix)
 	{"Abig-Brows", func(m, p, n int) (M, M) { return colGraded(m, n, 57).scale(0x1p+40), rowLadder(p, n, 58) }},
 	{"Bbig-Arows", func(m, p, n int) (M, M) { return rowLadder(m, n, 59), colGraded(p, n, 60).scale(0x1p+40) }},
+	{"int@2^-400", func(m, p, n int) (M, M) {
+		return intGeneral(m, n, 3, lcgFor(50, m, n)).scale(0x1p-400), intGeneral(p, n, 3, lcgFor(51, p, n)).scale(0x1p-400)
+	}},
+	{"int@2^400", func(m, p, n int) (M, M) {
+		return intGeneral(m, n, 3, lcgFor(50, m, n)).scale(0x1p+400), intGeneral(p, n, 3, lcgFor(51, p, n)).scale(0x1p+400)
+	}},
 	{"Asmall-Brows", func(m, p, n int) (M, M) {
 		return intGeneral(m, n, 3, lcgFor(61, m, n)).scale(0x1p-40), rowLadder(p, n, 62).scale(0x1p+10)
 	}},
